@@ -131,7 +131,7 @@ def _alarm(signum, frame):
 
 def guard(fn):
     """-> (result class, value).  Everything escaping is classified."""
-    signal.setitimer(signal.ITIMER_REAL, 5.0)
+    signal.setitimer(signal.ITIMER_VIRTUAL, 5.0)
     try:
         return "ok", fn()
     except Timeout:
@@ -141,7 +141,7 @@ def guard(fn):
     except BaseException as e:  # noqa
         return project.errclass(e), type(e).__name__ + ": " + str(e)[:200]
     finally:
-        signal.setitimer(signal.ITIMER_REAL, 0)
+        signal.setitimer(signal.ITIMER_VIRTUAL, 0)
 
 
 def _name(x):
@@ -152,7 +152,7 @@ def run_doc(ver, lines):
     """Everything gfapy does with one document.  Returns the raw log:
     texts only (lists of written lines) and result classes."""
     gfapy = _load_gfapy()
-    signal.signal(signal.SIGALRM, _alarm)
+    signal.signal(signal.SIGVTALRM, _alarm)
     tv = "gfa2" if ver == "gfa1" else "gfa1"
     src = "\n".join(lines)
     to_s, to_o = "to_%s_s" % tv, "to_%s" % tv
